@@ -803,6 +803,7 @@ impl TransactionBuilder {
             ));
         }
 
+        self.check_max_value_size(&collateral_return.amount)?;
         let min_ada = min_ada_for_output(&collateral_return, &self.config.utxo_cost())?;
         if min_ada > collateral_return.amount.coin {
             return Err(JsError::from_str(&format!(
@@ -851,6 +852,7 @@ impl TransactionBuilder {
         let col_return: Value = col_input_value.checked_sub(&Value::new(&total_collateral))?;
         if col_return.multiasset.is_some() || col_return.coin > BigNum::zero() {
             let return_output = TransactionOutput::new(return_address, &col_return);
+            self.check_max_value_size(&return_output.amount)?;
             let min_ada = min_ada_for_output(&return_output, &self.config.utxo_cost())?;
             if min_ada > col_return.coin {
                 return Err(JsError::from_str(&format!(
@@ -1111,6 +1113,18 @@ impl TransactionBuilder {
         let aligned_fee_after = self.fee_request.get_new_fee(fee_after);
 
         aligned_fee_after.checked_sub(&aligned_fee_before)
+    }
+
+    /// The ledger applies the maximum value size to every output of the body, the collateral return included
+    fn check_max_value_size(&self, amount: &Value) -> Result<(), JsError> {
+        let value_size = amount.to_bytes().len();
+        if value_size > self.config.max_value_size as usize {
+            return Err(JsError::from_str(&format!(
+                "Maximum value size of {} exceeded. Found: {}",
+                self.config.max_value_size, value_size
+            )));
+        }
+        Ok(())
     }
 
     /// Add explicit output via a TransactionOutput object
